@@ -142,7 +142,8 @@ def k8(ctx):
     CN = ("upvar", "create_new")
     hdr = [e for e in res.log if e["kind"] == "call" and e.get("effect") == "ptr_write" and ("bool", CN, True) in ctx.facts_of(ev, e)]
     ident = [e for e in res.log if (e["kind"] == "call" and e.get("effect") == "copy_from_slice") or (e["kind"] == "store" and e["path"] and isinstance(e["path"][-1], tuple) and e["path"][-1][0] == "idx")]
-    ident = [e for e in ident if e["body"].name == "write_sanity"]
+    # (the writes of write_sanity, whether in its own body or in a closure it runs)
+    ident = [e for e in ident if e["body"].name == "write_sanity" or any(p_ == "write_sanity" for p_, _ in e["chain"])]
     ok = len(hdr) == 1 and len(ident) >= 3 and all(hdr[0]["seq"] < e["seq"] for e in ident)
     yield Ob(key_of("C06-K8", b.path, "header-before-identification"), ok,
              "create path: header write (%s) %s the %d identification-block writes" % (ctx.loc(hdr[0]) if hdr else "none", "precedes" if ok else "does NOT precede", len(ident)), ctx.loc(hdr[0]) if hdr else b.loc())
